@@ -396,8 +396,8 @@ struct Exec {
 		}
 	}
 
-	void block(const std::vector<Stmt> &ss) {
-		size_t nvars = vars.size();
+	void block(const std::vector<Stmt> &ss, bool topLevel = false) {
+		size_t nvars = topLevel ? (size_t)-1 : vars.size();   // top level variables stay alive: their final values are the observed outputs
 		struct Restore { std::vector<Value> &v; size_t n; ~Restore() { while (v.size() > n) v.pop_back(); } } restore{vars, nvars}; // locals die at the end of the block
 		for (const Stmt &s : ss) {
 			switch (s.k) {
@@ -470,7 +470,7 @@ static void runCase(std::ostream &o, const std::string &id, const Program &p, Rn
 			ex.vars.push_back(std::move(v));
 		}
 		bool threw = false; std::string what;
-		try { ex.block(p.stmts); }
+		try { ex.block(p.stmts, true); }
 		catch (const std::exception &e) { threw = true; what = e.what(); }
 		if (threw) {
 			std::string w1 = what.substr(0, what.find('\n'));
